@@ -193,6 +193,7 @@ class State:
     def __init__(self, w):
         self.w = w
         self.hd = {}
+        self._trunc_of = {}      # id(HDiscretization) -> truncate flag of the space when it was created
         self.geo_kind = None
         self.ncheck = 0
 
@@ -240,7 +241,7 @@ class State:
                 hd = self.hd.get('mass')
                 if hd is None:
                     hd = self.hd['mass'] = hierarchical.HDiscretization(hs, make_form('mass', dim), dict(args))
-                    hd._vsim_truncate = bool(hs.truncate)
+                    self._trunc_of[id(hd)] = bool(hs.truncate)
                 else:
                     ctx.count('probe.hdiscretization.reused.for.functional')
                 which = q.pick(['assemble_rhs', 'assemble_functional']) if name == 'l2' else q.pick(['assemble_rhs(vf)', 'assemble_functional'])
@@ -250,7 +251,7 @@ class State:
                     b = ctx.call('HDiscretization.assemble_rhs', hd.assemble_rhs, make_form(name, dim))
                 else:
                     b = ctx.call('HDiscretization.assemble_functional', hd.assemble_functional, make_form(name, dim))
-                trunc = hd._vsim_truncate
+                trunc = self._trunc_of[id(hd)]
             else:
                 b = ctx.call('assemble(functional, hspace)', assemble.assemble, make_form(name, dim), hs, **dict(args))
                 trunc = bool(hs.truncate)
@@ -278,14 +279,14 @@ class State:
             hd = self.hd.get(name)
             if hd is None:
                 hd = self.hd[name] = hierarchical.HDiscretization(hs, make_form(name, dim), dict(args))
-                hd._vsim_truncate = bool(hs.truncate)
+                self._trunc_of[id(hd)] = bool(hs.truncate)
             else:
                 ctx.count('probe.hdiscretization.reused')
             A = ctx.call('HDiscretization.assemble_matrix', hd.assemble_matrix, symmetric=symflag)
-            trunc = hd._vsim_truncate
+            trunc = self._trunc_of[id(hd)]
             if A is not RAISED():
-                ctx.check(hd.truncate == trunc, 'hdiscr-truncate-flag-not-restored',
-                          'HDiscretization.truncate is %r after assemble_matrix, was %r' % (hd.truncate, trunc), sig)
+                ctx.check(getattr(hd, 'truncate', trunc) == trunc, 'hdiscr-truncate-flag-not-restored',
+                          'HDiscretization.truncate is %r after assemble_matrix, was %r' % (getattr(hd, 'truncate', None), trunc), sig)
         else:
             A = ctx.call('assemble(form, hspace)', assemble.assemble, make_form(name, dim), hs,
                          symmetric=symflag, **dict(args))
